@@ -1,6 +1,7 @@
 package rules
 
 import (
+	"go/types"
 	"fmt"
 	"go/ast"
 	"go/token"
@@ -385,6 +386,30 @@ func checkProbeNode(c *Ctx, prop string) {
 	p := c.P
 	fn := c.MustFunc("Memberlist.probeNode")
 	x := c.flow(fn, map[string]string{})
+	// the locals the rules talk about, found by their role rather than their spelling:
+	// the ack channel and the ping message handed to the registration, and the boolean the
+	// fallback channel delivers
+	ackName, pingName, contactName := "ackCh", "ping", "didContact"
+	inspectFn(fn, func(n ast.Node) bool {
+		switch v := n.(type) {
+		case *ast.CallExpr:
+			if f := p.Callee(v); f != nil && core.QualName(f) == "Memberlist.setProbeChannels" && len(v.Args) >= 2 {
+				if se, ok := ast.Unparen(v.Args[0]).(*ast.SelectorExpr); ok {
+					pingName = norm(p.Canon(se.X))
+				}
+				ackName = norm(p.Canon(v.Args[1]))
+			}
+		case *ast.RangeStmt:
+			if ch, ok := p.TypeOf(v.X).Underlying().(*types.Chan); ok {
+				if b, ok := ch.Elem().Underlying().(*types.Basic); ok && b.Kind() == types.Bool {
+					if id, ok := v.Key.(*ast.Ident); ok {
+						contactName = norm(p.Canon(id))
+					}
+				}
+			}
+		}
+		return true
+	})
 	// wiring of the sequence number and channels
 	c.flowMay(x, prop+"/probe/registration", "the probe registers its channels under the sequence number it puts in the ping, with the awareness-scaled probe interval as deadline", func(e *gea.Effect) bool { return e.Class == "CALL:Memberlist.setProbeChannels" },
 		func(e *gea.Effect) (bool, string) {
@@ -422,7 +447,7 @@ func checkProbeNode(c *Ctx, prop string) {
 	ind := false
 	inspectFn(fn, func(n ast.Node) bool {
 		if cl, ok := n.(*ast.CompositeLit); ok && core.NamedOf(p.TypeOf(cl)) == "indirectPingReq" {
-			if e := fieldExpr(cl, "SeqNo"); e != nil && norm(p.Canon(e)) == "ping.SeqNo" {
+			if e := fieldExpr(cl, "SeqNo"); e != nil && norm(p.Canon(e)) == pingName+".SeqNo" {
 				ind = true
 			}
 		}
@@ -440,13 +465,13 @@ func checkProbeNode(c *Ctx, prop string) {
 		nS++
 		final := ""
 		for k, v := range e.Cube {
-			if u := norm(k); strings.HasPrefix(u, "<-ackCh.Complete") || strings.HasPrefix(u, "recv") && strings.HasSuffix(u, ".Complete") {
+			if u := norm(k); strings.HasPrefix(u, "<-"+ackName+".Complete") || strings.HasPrefix(u, "recv") && strings.HasSuffix(u, ".Complete") {
 				final = v
 			}
 		}
 		contact := false
 		for k, v := range e.Cube {
-			if strings.HasPrefix(norm(k), "didContact") && v == "T" {
+			if strings.HasPrefix(norm(k), contactName) && v == "T" {
 				contact = true
 			}
 		}
@@ -469,7 +494,7 @@ func checkProbeNode(c *Ctx, prop string) {
 		why := "exit without suspicion that is neither a complete ack, a positive fallback nor a local failure"
 		for k, v := range ex.Cube {
 			u := norm(k)
-			if (strings.Contains(u, ".Complete") && v == "T") || (strings.HasPrefix(u, "didContact") && v == "T") {
+			if (strings.Contains(u, ".Complete") && v == "T") || (strings.HasPrefix(u, contactName) && v == "T") {
 				ok = true
 			}
 			if strings.HasPrefix(u, "?failedRemote(") && v == "F" {
@@ -501,7 +526,7 @@ func checkProbeNode(c *Ctx, prop string) {
 			answered := false
 			for k, v := range e.Cube {
 				u := norm(k)
-				if (strings.Contains(u, ".Complete") && v == "T") || (strings.HasPrefix(u, "didContact") && v == "T") {
+				if (strings.Contains(u, ".Complete") && v == "T") || (strings.HasPrefix(u, contactName) && v == "T") {
 					answered = true
 				}
 			}
